@@ -36,6 +36,13 @@ func main() {
 		}
 		fn, ok := seq.Replayers[r.Kind]
 		if !ok {
+			// a finding of a part of a check that has no input of its own to replay (grids, probes,
+			// constructor laws): replaying is running that check again
+			if _, isCheck := seq.Checks[r.Property]; isCheck {
+				os.Setenv("VERIF_OUT", os.TempDir())
+				supervise(r.Property, "quick")
+				return
+			}
 			fmt.Fprintln(os.Stderr, "HARNESS-ERROR: no replayer for kind", r.Kind)
 			os.Exit(2)
 		}
